@@ -24,8 +24,8 @@ Definition C01_full_statement : Prop :=
    regression case.)
    Pipeline coverage: grouping, merging, matrix / indexed forms, multi-source sum, wiring of producers and edge operator,
    recursive evaluation of algebraic variables; separately proved: hierarchy flattening (the C01_hierarchy theorems), the
-   evaluation order of _sort_var_updates (C01_sort_topological, C01_sorted_run_solves; that this solution is the recursive
-   `value` is not yet a theorem), unique labels (C01_names).  NOT covered by a theorem: the textual rewrite of whole equations
+   evaluation order of _sort_var_updates (C01_sort_topological, C01_sorted_run_solves, and uniqueness:
+   C01_sorted_run_is_recursive_value, C01_solution_is_value), unique labels (C01_names).  NOT covered by a theorem: the textual rewrite of whole equations
    through sympy (only its algebraic effect, C01_substitute_input_term) and code printing — exercised by the correspondence
    run only. *)
 Theorem C01_full : forall n, wf n = true -> guard n = true ->
@@ -194,6 +194,22 @@ Theorem C01_sorted_run_solves : forall prog out env, sort_assigns prog = (out, t
   (forall x, ~ In x (map fst prog) -> run_assigns out env x = env x).
 Proof. exact sorted_run_solves. Qed.
 Print Assumptions C01_sorted_run_solves.
+
+(* uniqueness: the memory left by the sorted run IS the recursive meaning of the assignments (whenever the recursive
+   denotation is defined, i.e. always for acyclic systems), for any program, base memory and fuel ... *)
+Theorem C01_sorted_run_is_recursive_value : forall prog out env, sort_assigns prog = (out, true) -> NoDup (map fst prog) ->
+  (forall p, In p prog -> ~ In (fst p) (fv (snd p))) ->
+  forall fuel x w, den_assigns prog env fuel x = Some w -> run_assigns out env x = Some w.
+Proof. exact sorted_run_is_den. Qed.
+Print Assumptions C01_sorted_run_is_recursive_value.
+
+(* ... and at the level of networks: ANY memory that satisfies all equations simultaneously (state variables = state,
+   constants = parameters, algebraic variables = their expressions, inputs = producers + all edges or the default) agrees
+   with Net.value wherever value is defined — which Net.wf demands for every variable *)
+Theorem C01_solution_is_value : forall n st pa M, solves n st pa M ->
+  forall v w, value n st pa v = Some w -> M v = Some w.
+Proof. exact solution_is_value. Qed.
+Print Assumptions C01_solution_is_value.
 
 (* non-vacuity: hierarchy depth 1, three nodes, a same-node producer, two parallel edges, two source nodes, an unconnected
    input with an overridden default — satisfies wf and every guard; v' = -1/8 + (3 + 3/4*1/2 - 9/16) + 2*4 = 171/16 *)
